@@ -7,7 +7,7 @@
 //!  `ext`   enum extension pairs.
 use crate::cases::{case_bytes, case_value, impl_decode, impl_decode_rest, impl_encode, Out, Pending, ValueOpts};
 use crate::collect::Collector;
-use crate::fam_builtin::mutate;
+use crate::fam_builtin::{mutate, systematic};
 use crate::generated::decls::{env_lines, visit_decls, visit_exts, visit_hists, DeclVisitor};
 use crate::rng::Rng;
 use crate::sexp::hex;
@@ -21,6 +21,7 @@ struct Vis<'a> {
     values: usize,
     mode: &'static str,
     idx: u64,
+    tamper_values: usize,
 }
 
 impl<'a> DeclVisitor for Vis<'a> {
@@ -58,8 +59,11 @@ impl<'a> DeclVisitor for Vis<'a> {
                     );
                 }
             }
-            // tampered encodings of derived types (C05/C06)
+            // tampered encodings of derived types (C05/C06): systematic edits of a few values, random ones of the rest
             if let Out::Ok(b) = &enc {
+                if T::raw_ok() && i < self.tamper_values {
+                    systematic::<T>(b, self.c, &mut self.q);
+                }
                 if T::raw_ok() && i % 2 == 0 {
                     for _ in 0..3 {
                         let m = mutate(&mut r, b);
@@ -194,7 +198,7 @@ fn run_mode(a: &Args, mode: &'static str) -> Collector {
         (_, false) => 8,
         (_, true) => 60,
     };
-    let mut vis = Vis { r: Rng::new(a.seed), c: &mut c, q: vec![], values, mode, idx: 0 };
+    let mut vis = Vis { r: Rng::new(a.seed), c: &mut c, q: vec![], values, mode, idx: 0, tamper_values: if a.thorough { 40 } else { 4 } };
     if mode == "decl" {
         visit_decls(&mut vis);
         visit_exts(&mut vis);
